@@ -16,7 +16,7 @@ import subprocess
 from lib import vlib
 from lib.vlib import cq_list, cq_bool
 
-SETUP_BUILDS = [{"name": "c07"}]
+SETUP_BUILDS = [{"name": "c07"}, {"name": "c07", "race": True}]
 COQ_TARGETS = ["Slots/Properties_C07.v", "Slots/Corr.v", "Slots/CorrMM.v"]
 HEADER = ("From Coq Require Import List ZArith NArith Bool.\nFrom V Require Import Common.Bytes Slots.StopFns Slots.Model Slots.Corr Slots.ModelMM Slots.CorrMM.\n"
           "Import ListNotations.\nOpen Scope Z_scope.\n")
@@ -558,6 +558,85 @@ def pure_stage(ctx, binp):
         ctx.mismatch("Slots/Corr.%s" % items[i].split()[0], strip(c), o, items[i])
 
 
+# ------------------------------------------------------------------ concurrent stage (handler-level locking)
+
+def gen_conc(ctx):
+    rng = ctx.rng
+    out = []
+    n = 36 if ctx.quick() else 300
+    for k in range(n):
+        parallel = rng.choice([2, 2, 3])
+        numctx = rng.choice([12, 16])
+        vocab = rng.choice([4, 6])
+        multi = k % 3 != 2                     # multi-user: the slot selection can be parked (it logs before marking InUse)
+        cfg = {"parallel": parallel, "kv": parallel * numctx, "batch": rng.choice([2, 4, 8]), "vocab": vocab, "eos": -1,
+               "multi": multi, "shift": True, "partial": True, "resume": True}
+        warm = [{"prompt": rnd_toks(rng, vocab, rng.randint(2, 4)), "npred": 2, "keep": 0} for _ in range(parallel)]
+        nb = rng.randint(2, min(4, parallel + 1))
+        burst = []
+        for _ in range(nb):
+            r = rng.random()
+            pr = list(rng.choice(warm)["prompt"]) + rnd_toks(rng, vocab, 1) if r < 0.3 else rnd_toks(rng, vocab, rng.randint(2, 5))
+            burst.append({"prompt": pr, "npred": rng.randint(4, 8), "keep": 0})
+        out.append({"op": "conc", "cfg": cfg, "warm": warm, "burst": burst, "park": multi, "klass": "concurrent-multi" if multi else "concurrent-single"})
+    return out
+
+
+def conc_monitor(c, o):
+    out = []
+    sig = {"concurrent": True, "multi": c["cfg"]["multi"], "slots": c["cfg"]["parallel"]}
+    if o.get("dups"):
+        out.append((dict(sig, **{"class": "double-use"}), "two live sequences held the same cache slot while a batch was decoded: slots of the live sequences %s" % o["dups"][0]))
+    if o.get("overlaps"):
+        out.append((dict(sig, **{"class": "unserialized-cache-access"}),
+                    "%d cache management calls (LoadCacheSlot's Remove/CopyPrefix/CanResume, Forward's StartForward) overlapped in time: slot selection is not serialized with the other requests and processBatch" % o["overlaps"]))
+    if "panic" in o:
+        out.append((dict(sig, **{"class": "panic"}), "the run loop panicked: %s" % o["panic"]))
+    reason = {0: "stop", 1: "length", 2: "connection_closed"}
+    for i, (b, f) in enumerate(zip(o.get("burst") or [], o.get("fresh") or [])):
+        if not isinstance(f, dict) or f.get("kind") != "":
+            continue
+        if b.get("timeout") or b.get("status") != 200:
+            out.append((dict(sig, **{"class": "request-failed"}), "concurrent request %d did not complete: %s" % (i, b)))
+        elif b.get("text") != "".join(f.get("pieces") or []) or reason.get(b.get("reason")) != f.get("reason"):
+            out.append((dict(sig, **{"class": "differs-from-fresh"}), "concurrent request %d streamed %r (%s); alone on a fresh runner: %r (%s)"
+                        % (i, b.get("text"), reason.get(b.get("reason")), "".join(f.get("pieces") or []), f.get("reason"))))
+    return out
+
+
+def conc_stage(ctx, binp, race_bin=None):
+    """the real completion handler from several goroutines at once + the real run loop"""
+    cases = gen_conc(ctx)
+    for tag, b in (("", binp), ("race", race_bin)):
+        if not b:
+            continue
+        inp = "".join(json.dumps(strip(c)) + "\n" for c in cases)
+        try:
+            p = subprocess.run([b], input=inp, capture_output=True, text=True, timeout=600, env=vlib.goenv(), cwd=ctx.tmp)
+        except subprocess.TimeoutExpired:
+            ctx.violation({"class": "concurrent-hang", "concurrent": True}, "the concurrent stage did not finish", {"cases": len(cases)})
+            continue
+        outs = [json.loads(l) for l in p.stdout.split("\n") if l.startswith("{")]
+        seen = set()
+        for c, o in zip(cases, outs):
+            if not tag:
+                ctx.note_case(strip(c), True, c["klass"])
+                ctx.count("concurrent-requests", len(c["burst"]))
+                if o.get("parked"):
+                    ctx.count("concurrent-bursts-parked-in-slot-selection")
+            for sig, what in conc_monitor(c, o):
+                if sig["class"] not in seen:
+                    seen.add(sig["class"])
+                    ctx.violation(sig, what, {"case": strip(c), "impl": o})
+        if "DATA RACE" in p.stderr:
+            ctx.violation({"class": "data-race", "concurrent": True}, "the race detector reported a data race in the concurrent stage", {"stderr": p.stderr[-3000:]})
+        elif len(outs) != len(cases) or p.returncode != 0:
+            ctx.violation({"class": "concurrent-crash", "concurrent": True},
+                          "the runner process died in the concurrent stage after %d of %d bursts: %s" % (len(outs), len(cases), (p.stderr.strip().split("\n") or [""])[0][:200]),
+                          {"case": strip(cases[len(outs)]) if len(outs) < len(cases) else None, "stderr": p.stderr[:3000]})
+        ctx.obligation("concurrent stage%s: %d bursts through the real completion handler" % (" (-race)" if tag else "", len(cases)), True)
+
+
 # ------------------------------------------------------------------ the check
 
 def strip(c):
@@ -635,6 +714,7 @@ def run(ctx):
     if not binp:
         return
     pure_stage(ctx, binp)
+    conc_stage(ctx, binp, None if ctx.quick() else ctx.go_build("c07", race=True))
     cases = gen_cases(ctx)
     obs, err = ctx.run_jsonl(binp, [strip(c) for c in cases], timeout=900)
     if obs is None or len(obs) != len(cases):
@@ -714,6 +794,14 @@ def replay(ctx, path):
     binp = ctx.go_build("c07")
     rp = r.get("replay", {})
     c = rp.get("case") if isinstance(rp, dict) else None
+    if c and binp and c.get("op") == "conc":
+        o = run_one(binp, c)
+        if o is None:
+            ctx.violation({"class": "concurrent-crash", "concurrent": True}, "the runner process died", {"case": c})
+        else:
+            for sig, what in conc_monitor(c, o):
+                ctx.violation(sig, what, {"case": c, "impl": o})
+        return
     if c and binp:
         o = run_one(binp, c)
         attach_ops(c, o or {})
